@@ -613,11 +613,114 @@ theorem div_decides {a : List Int} (n dn r : View) (hn : n.var < a.length) (hd :
 
 /-! ### every propagator; the fixpoint at a full assignment -/
 
+/-! ### cumulative at a full assignment -/
+
+theorem mandatoryAt_sing {a : List Int} (k : Task) (hk : k.start.var < a.length) (t : Int) :
+    mandatoryAt (sing a) k t = (decide (k.start.eval a ≤ t) && decide (t < k.start.eval a + k.dur)) := by
+  simp only [mandatoryAt, lb_sing hk, ub_sing hk]
+
+theorem heightAt_sing {a : List Int} (ts : List Task) (hw : ∀ k ∈ ts, k.start.var < a.length) (t : Int) :
+    heightAt (sing a) ts t = loadAt ts a t := by
+  rw [heightAt_eq_sumL, loadAt_eq_sumL]
+  congr 1
+  apply List.map_congr_left
+  intro k hk
+  rw [mandatoryAt_sing k (hw k hk)]
+  by_cases h1 : k.start.eval a ≤ t <;> by_cases h2 : t < k.start.eval a + k.dur <;> simp [h1, h2]
+
+theorem ttTaskAt_sing {a : List Int} (holes : Bool) (cap : Int) (ts : List Task) (t : Int) (k : Task)
+    (hk : k.start.var < a.length) : ttTaskAt holes cap ts t k (sing a) = some (sing a) := by
+  unfold ttTaskAt
+  rw [if_neg]
+  rintro ⟨_, hnm, h1, h2⟩
+  rw [mandatoryAt_sing k hk] at hnm
+  rw [lb_sing hk] at h1
+  rw [ub_sing hk] at h2
+  simp [h1, h2] at hnm
+
+theorem ttTasksAt_sing {a : List Int} (holes : Bool) (cap : Int) (ts : List Task) (t : Int) (sub : List Task)
+    (hw : ∀ k ∈ sub, k.start.var < a.length) : ttTasksAt holes cap ts t sub (sing a) = some (sing a) := by
+  induction sub with
+  | nil => rfl
+  | cons k r ih =>
+    simp only [ttTasksAt, ttTaskAt_sing holes cap ts t k (hw k (by simp)), Option.bind_some]
+    exact ih (fun j hj => hw j (by simp [hj]))
+
+theorem ttPoints_sing {a : List Int} (holes : Bool) (cap : Int) (ts : List Task)
+    (hw : ∀ k ∈ ts, k.start.var < a.length) (times : List Int) :
+    ttPoints holes cap ts times (sing a) = none ∨
+    (ttPoints holes cap ts times (sing a) = some (sing a) ∧ ∀ t ∈ times, loadAt ts a t ≤ cap) := by
+  induction times with
+  | nil => right; exact ⟨rfl, by intro t ht; cases ht⟩
+  | cons t r ih =>
+    simp only [ttPoints, heightAt_sing ts hw]
+    by_cases h1 : loadAt ts a t > cap
+    · left; simp [h1]
+    · rw [if_neg h1]
+      have hstep : (if loadAt ts a t > 0 then (ttTasksAt holes cap ts t ts (sing a)).bind (ttPoints holes cap ts r)
+          else ttPoints holes cap ts r (sing a)) = ttPoints holes cap ts r (sing a) := by
+        split
+        · rw [ttTasksAt_sing holes cap ts t ts hw]; rfl
+        · rfl
+      rw [hstep]
+      rcases ih with h | ⟨h, hall⟩
+      · left; exact h
+      · right
+        refine ⟨h, ?_⟩
+        intro u hu
+        rcases List.mem_cons.1 hu with rfl | hu
+        · omega
+        · exact hall u hu
+
+theorem mem_intRange_lo (lo hi : Int) (h : lo ≤ hi) : lo ∈ intRange lo hi := by
+  unfold intRange
+  exact List.mem_map.2 ⟨0, List.mem_range.2 (by omega), by simp⟩
+
+theorem ttTasks_eq (ts : List Task) :
+    ttTasks ts = ts.filter (fun k => decide (0 < k.use) && decide (0 < k.dur)) := by
+  unfold ttTasks
+  apply List.filter_congr
+  intro k _
+  exact Bool.and_comm _ _
+
+/-- at a full assignment the time-table check decides `cumulative` (for a non-negative capacity) -/
+theorem tt_decides {a : List Int} (holes : Bool) (ts : List Task) (cap : Int) (hw : tasksWf a.length ts)
+    (hcap : 0 ≤ cap) : Decides a (.cumulative ts cap) (ttPass holes ts cap (sing a)) := by
+  unfold ttPass
+  simp only []
+  split
+  · left; rfl
+  · have hw' : ∀ k ∈ ttTasks ts, k.start.var < a.length := fun k hk => (hw k (List.mem_filter.1 hk).1).1
+    rcases ttPoints_sing holes cap (ttTasks ts) hw' (ttTimes (sing a) (ttTasks ts)) with h | ⟨h, hall⟩
+    · left; exact h
+    · right
+      refine ⟨h, ?_⟩
+      -- the load at the start of every kept task is within the capacity
+      have hu' : ∀ k ∈ ttTasks ts, 0 ≤ k.use := fun k hk => (hw k (List.mem_filter.1 hk).1).2
+      have hsat' : (Cons.cumulative (ttTasks ts) cap).sat a = true := by
+        simp only [Cons.sat, Bool.and_eq_true, List.all_eq_true, decide_eq_true_eq]
+        refine ⟨?_, hcap⟩
+        intro k hk
+        apply hall
+        simp only [ttTimes, List.mem_flatMap]
+        refine ⟨k, hk, ?_⟩
+        rw [ub_sing (hw' k hk), lb_sing (hw' k hk)]
+        have hd := (List.mem_filter.1 hk).2
+        simp only [Bool.and_eq_true, decide_eq_true_eq] at hd
+        exact mem_intRange_lo _ _ (by omega)
+      have hT' := (CumSem.cumulative_sat_iff (ttTasks ts) cap a hu').1 hsat'
+      apply (CumSem.cumulative_sat_iff ts cap a (fun k hk => (hw k hk).2)).2
+      intro t
+      rcases CumSem.loadAt_drop_zero ts a t with he | ⟨k, hk, hneg⟩
+      · rw [← he, ← ttTasks_eq]; exact hT' t
+      · have := (hw k hk).2; omega
+
 /-- preconditions the real propagators assert or rely on: a denominator is never 0, `maximum` is
-not posted over an empty array -/
+not posted over an empty array, the capacity of `cumulative` is not negative -/
 def PropInst.Pre (a : List Int) : PropInst → Prop
   | .div _ dn _ => dn.eval a ≠ 0
   | .max xs _ => xs ≠ []
+  | .cumulative _ _ cap => 0 ≤ cap
   | .reified _ p => p.Pre a
   | _ => True
 
@@ -633,6 +736,7 @@ theorem pass_checks {a : List Int} (p : PropInst) (hw : p.Wf a.length) (hpre : p
   | div x y z => exact div_decides x y z hw.1 hw.2.1 hw.2.2 hpre
   | element i xs r => exact element_decides i xs r hw.1 hw.2.1 hw.2.2
   | clause ls => exact clause_decides ls hw
+  | cumulative holes ts cap => exact tt_decides holes ts cap hw hpre
   | reified r q ih =>
     simp only [PropInst.pass, atomTrue_sing hw.1, atomFalse_sing hw.1]
     have hfix : (!(r.holds a || !r.holds a) && q.inconsistent (sing a)) = false := by
@@ -774,6 +878,7 @@ theorem compileWith_bwd (orig : Doms) (imp : Option Atom) (c : Cons) (ps : List 
     simp only [PropInst.cons, Cons.sat, decide_eq_true_eq, sumViews, List.map_cons, List.map_nil, List.foldl_cons,
       List.foldl_nil, View.scaled_eval] at this
     omega
+  · exact wrap_sat_inv imp _ a (H _ (List.mem_cons_self ..)) hi
   · -- clause
     rename_i ls
     cases imp with
